@@ -83,6 +83,12 @@ def main():
             n_assumed += 1
             provers = [v for v in allunits if v["file"] == u["file"] and fname in v["funcs"] and proved_in(v, fname)]
             sweeps = [v for v in allunits if v["file"] == u["file"] and fname not in v["funcs"] and v["files"] and proved_in(v, fname)]
+            importers = [v for v in allunits if v is not u and fname not in v["funcs"] and proved_in(v, fname)
+                         and any(x.strip() == "%s:%s" % (u["file"], u["name"]) for x in v["uses"])]
+            if not provers and importers:
+                n_proved += 1
+                rows.append((u["file"], u["name"], fname, importers[0]["name"], "this very block, imported with `use` by the proving unit"))
+                continue
             if not provers:
                 note = "not proved anywhere: assumption"
                 if sweeps:
